@@ -37,10 +37,14 @@ ASSUMPTIONS = [
   'placeholders / imported Verilog, no_synthesis options and line-trace hooks are out of scope',
   'single clock domain: always_ff @(posedge clk) processes are all triggered by sim_tick; x/z values do not exist (two-state)',
 ]
-RULE = ('one PRNG -> random component hierarchies (0-2 levels of sub-components, lists of sub-components, struct / list ports, interfaces, '
-        'constants, temporaries, if/elif/else, constant for loops incl. negative steps, slices, part selects, concat/zext/sext/trunc/reduce, '
-        'comparisons, shifts, %, if-expressions) with 4-8 cycles of boundary-biased inputs each; labelled streams for the known defect shapes; '
-        'non-trivial = translated, parsed and simulated on both sides; distinct = distinct (source text, inputs)')
+RULE = ('one PRNG -> random component hierarchies: 0-2 levels of sub-components with constructor parameters, 1-D / 2-D lists of leaf '
+        'sub-components (also with different parameters), Bits / bitstruct (nested, 1-D / 2-D list fields) ports, 1-D / 2-D lists of ports and '
+        'wires, interfaces and 1-D / 2-D lists of interfaces, constants (int, Bits, bitstruct, closure), temporaries, if/elif/else, constant for '
+        'loops (nested, step 2, landing negative steps), whole / slice / bit / field / element targets, structural connections (whole, slices, '
+        'constants, every element of a list, lambdas), slices, dynamic indices, part selects, concat/zext/sext/trunc/reduce/BitsN(), comparisons, '
+        'shifts, %, if-expressions, struct re-read as bits; widths 1..64 with a 65..512 tail; 5-8 cycles of boundary-biased inputs each; '
+        'regression streams for the repaired defect shapes (F13-F16, F18-F21) and labelled streams for the known findings (canonical witness '
+        'first); non-trivial = translated, parsed and simulated on both sides; distinct = distinct (source text, inputs)')
 
 BE = 'verilog'
 
